@@ -15,7 +15,7 @@ RULE = ("random shots (twist 0) with 1-4 wind segments (speeds 0-60 ft/s, opposi
         "until-distances), zero-speed == none, appended zero wind, split segment, causality beyond D, left-right mirror, "
         "signs vs the no-wind twin, and windage at every row against the RK4 reference; a case = (shot, relation); "
         "non-trivial when at least one wind with non-zero speed switches inside the range")
-MUST_OBSERVE = ["relations_checked", "rel_permutation", "rel_zero_speed", "rel_append_zero", "rel_split", "rel_causality",
+MUST_OBSERVE = ["relations_checked", "rel_setter", "rel_permutation", "rel_zero_speed", "rel_append_zero", "rel_split", "rel_causality",
                 "rel_mirror", "rel_sign_cross", "rel_sign_head_tail", "rel_reference", "reference_rows", "switch_inside_range",
                 "rel_differs_after_switch", "sign_drop_rows_judged"]
 ASSUMPTIONS = ["permutation is only required when all until-distances are distinct (ties have no defined order)",
@@ -81,6 +81,26 @@ def check_case(ctx, case):
             return f"row {d[0]} {d[1]}: {d[2]!r} with the given winds, {d[3]!r} with the related list"
         return None
 
+    # 0 constructor vs setter, and the three spellings of "no wind"
+    ctx.count("relations_checked")
+    ctx.count("rel_setter")
+    with monitors.quiet():
+        sh = build.shot(dict(spec, winds=[]))
+        sh.winds = build.winds(winds)
+        try:
+            via_setter = [row_tuple(r) for r in build.calculator().fire(sh, Distance.Foot(r_ft), Distance.Foot(step))]
+        except pb.RangeError as err:
+            via_setter = [row_tuple(r) for r in err.incomplete_trajectory]
+        sh.winds = None
+        try:
+            cleared = [row_tuple(r) for r in build.calculator().fire(sh, Distance.Foot(r_ft), Distance.Foot(step))]
+        except pb.RangeError as err:
+            cleared = [row_tuple(r) for r in err.incomplete_trajectory]
+    cset = dict(case, relation="setter")
+    ctx.case(cset, nontrivial=inside, sample=False)
+    d = first_diff(base, via_setter)
+    if d:
+        ctx.violation("setter", f"winds assigned through Shot.winds differ from winds given to the constructor: row {d[0]} {d[1]} {d[2]!r} vs {d[3]!r}", cset)
     # 1 permutation
     if len(winds) >= 2 and len(set(untils)) == len(untils):
         perm = list(reversed(winds)) if case["perm"] == "reverse" else winds[1:] + winds[:1]
@@ -93,6 +113,9 @@ def check_case(ctx, case):
     zr, _ = rows_of(dict(spec, winds=zero), r_ft, step)
     c0 = dict(case, relation="zero_speed", other_winds=zero)
     ctx.case(c0, nontrivial=True, sample=False)
+    d = first_diff(none_rows, cleared)
+    if d:
+        ctx.violation("zero_speed", f"Shot.winds = None differs from winds=[]: row {d[0]} {d[1]} {d[2]!r} vs {d[3]!r}", dict(case, relation="cleared"))
     d = first_diff(none_rows, zr)
     if d:
         ctx.violation("zero_speed", f"zero-speed winds differ from no wind: row {d[0]} {d[1]} {d[2]!r} vs {d[3]!r}", c0)
